@@ -9,6 +9,17 @@ From LW Require Import Base.Outcome Base.Bytes App.Common App.Spec.
 Import ListNotations.
 Open Scope N_scope.
 
+Lemma wf_stream_split {P} (inw : P -> bool) cid_of up_of has_payload greedy up (cs : list (N * option P)) :
+  wf_stream inw cid_of up_of has_payload greedy up cs =
+  forallb (wf_cmd inw cid_of up_of has_payload up) cs && negb (greedy_not_last greedy cs).
+Proof.
+  induction cs as [|c cs IH]; [reflexivity|].
+  cbn [wf_stream forallb greedy_not_last]. rewrite IH.
+  destruct (wf_cmd inw cid_of up_of has_payload up c); cbn [andb]; [|reflexivity].
+  destruct cs as [|c' cs']; [reflexivity|].
+  destruct (cmd_greedy greedy c); cbn [negb orb andb]; [now rewrite andb_false_r|reflexivity].
+Qed.
+
 Section Termination.
   Variable payload : Type.
   Variable psize : payload -> nat.
